@@ -264,5 +264,5 @@ func (c *Chain) notifGenesisJ() interface{} {
 	for _, b := range gs.Blocks {
 		bs = append(bs, map[string]interface{}{"address": b.Address, "blockedAddress": b.BlockedAddress})
 	}
-	return map[string]interface{}{"notifications": ns, "blocks": bs}
+	return map[string]interface{}{"notifications": ns, "blocks": bs, "validateOk": gs.Validate() == nil}
 }
